@@ -162,6 +162,7 @@ func (m *Memberlist) schedule() {
 // triggerFunc is used to trigger a function call each time a
 // message is received until a stop tick arrives.
 func (m *Memberlist) triggerFunc(stagger time.Duration, C <-chan time.Time, stop <-chan struct{}, f func()) {
+	verifYield("trigger", m)
 	// Use a random stagger to avoid syncronizing
 	randStagger := time.Duration(uint64(rand.Int63()) % uint64(stagger))
 	select {
@@ -184,6 +185,7 @@ func (m *Memberlist) triggerFunc(stagger time.Duration, C <-chan time.Time, stop
 // timer is dynamically scaled based on cluster size to avoid network
 // saturation
 func (m *Memberlist) pushPullTrigger(stop <-chan struct{}) {
+	verifYield("pptrigger", m)
 	interval := m.config.PushPullInterval
 
 	// Use a random stagger to avoid syncronizing
@@ -230,6 +232,7 @@ func (m *Memberlist) deschedule() {
 
 // Tick is used to perform a single round of failure detection and gossip
 func (m *Memberlist) probe() {
+	verifYield("probe", m)
 	// Track the number of indexes we've considered probing
 	numCheck := 0
 START:
@@ -414,6 +417,7 @@ func (m *Memberlist) probeNode(node *nodeState) {
 	}
 
 HANDLE_REMOTE_FAILURE:
+	verifYield("indirect", m)
 	// Get some random live nodes.
 	m.nodeLock.RLock()
 	kNodes := kRandomNodes(m.config.IndirectChecks, m.nodes, func(n *nodeState) bool {
@@ -588,6 +592,7 @@ func (m *Memberlist) resetNodes() {
 // gossip is invoked every GossipInterval period to broadcast our gossip
 // messages to a few random nodes.
 func (m *Memberlist) gossip() {
+	verifYield("gossip", m)
 	defer metrics.MeasureSinceWithLabels([]string{"memberlist", "gossip"}, time.Now(), m.metricLabels)
 
 	// Get some random live, suspect, or recently dead nodes
@@ -646,6 +651,7 @@ func (m *Memberlist) gossip() {
 // reasonably expensive as the entire state of this node is exchanged
 // with the other node.
 func (m *Memberlist) pushPull() {
+	verifYield("pushpull", m)
 	// Get a random live node
 	m.nodeLock.RLock()
 	nodes := kRandomNodes(1, m.nodes, func(n *nodeState) bool {
@@ -847,6 +853,7 @@ func (m *Memberlist) setProbeChannels(seqNo uint32, ackCh chan ackMessage, nackC
 
 	// Add the handler, with a reaping routine
 	ah := &ackHandler{ackFn, nackFn, time.AfterFunc(timeout, func() {
+		verifYield("acktimeout", m)
 		m.ackLock.Lock()
 		delete(m.ackHandlers, seqNo)
 		m.ackLock.Unlock()
@@ -938,6 +945,7 @@ func (m *Memberlist) refute(me *nodeState, accusedInc uint32) {
 // aliveNode is invoked by the network layer when we get a message about a
 // live node.
 func (m *Memberlist) aliveNode(a *alive, notify chan struct{}, bootstrap bool) {
+	verifYield("alive", m)
 	m.nodeLock.Lock()
 	defer m.nodeLock.Unlock()
 	state, ok := m.nodeMap[a.Node]
@@ -1155,6 +1163,7 @@ func (m *Memberlist) aliveNode(a *alive, notify chan struct{}, bootstrap bool) {
 // suspectNode is invoked by the network layer when we get a message
 // about a suspect node
 func (m *Memberlist) suspectNode(s *suspect) {
+	verifYield("suspect", m)
 	m.nodeLock.Lock()
 	defer m.nodeLock.Unlock()
 	state, ok := m.nodeMap[s.Node]
@@ -1221,6 +1230,7 @@ func (m *Memberlist) suspectNode(s *suspect) {
 	min := suspicionTimeout(m.config.SuspicionMult, n, m.config.ProbeInterval)
 	max := time.Duration(m.config.SuspicionMaxTimeoutMult) * min
 	fn := func(numConfirmations int) {
+		verifYield("susptimeout", m)
 		var d *dead
 
 		m.nodeLock.Lock()
@@ -1248,6 +1258,7 @@ func (m *Memberlist) suspectNode(s *suspect) {
 // deadNode is invoked by the network layer when we get a message
 // about a dead node
 func (m *Memberlist) deadNode(d *dead) {
+	verifYield("dead", m)
 	m.nodeLock.Lock()
 	defer m.nodeLock.Unlock()
 	state, ok := m.nodeMap[d.Node]
